@@ -53,7 +53,9 @@ MANIFEST = {
             "validation_loop with two datasets in sequence, inference_on_environment + write_output_to_h5 read back) x dataset "
             "kind (toy / real H5SliceData with slice filters) x slice_no policy x world/batch size (also > every volume)/workers x "
             "crop x output layout (complex, float64, non-contiguous, views) x call history of the shared engine (other dataset "
-            "before, abandoned generator, generator that died mid-volume, interleaved generators, second pass over a loader). "
+            "before, abandoned generator, generator that died mid-volume, interleaved generators, second pass over a loader, and a pass "
+            "abandoned by break / close() / an exception in the model followed by a new pass over the SAME DataLoader and "
+            "BatchVolumeSampler objects with batch size 2..4 and unaligned volumes). "
             "Notes outside the statement: files and evaluate's metrics are keyed by basename only (write_collision_last_wins); "
             "the loss dict of a volume is a running mean over the loader, not that volume's losses (loss_list_not_per_volume; "
             "evidence note loss-dict-running-mean); a zero-slice volume after filtering (evidence note) is outside the "
@@ -96,7 +98,7 @@ RULE = ("layouts as in C13 (up to 6 volumes x 1..9 slices); batch 1..8 and 16; w
         "3..5 x 3..5 real or complex (Pythagorean pairs); per-slice dyadic scaling factors; crop on/off via the header path; "
         "slice_no policy pos/offset/stride/gaps/reversed/shuffled/constant/global or a real H5SliceData with slice_data filter; "
         "entry point predict/recon/evaluate/validation_loop/inference; history fresh/after-other/after-break/after-error/"
-        "interleaved/second-pass. raw loop: arbitrary splits of volumes into batches with arbitrary slice_no and loss dicts, "
+        "interleaved/second-pass/reuse-break/reuse-close/reuse-throw (same loader and sampler objects). raw loop: arbitrary splits of volumes into batches with arbitrary slice_no and loss dicts, "
         "malformed streams (mixed batch, unknown file, overflow, repetition) and reordered streams (window-2/3 delivery, volume "
         "order, interleaving). non-trivial = at least 2 volumes and some volume split over >= 2 batches (or a malformed / "
         "reordered stream); distinct = distinct protocol line / case")
